@@ -11,11 +11,15 @@ RFC 1918 socket address, LAN discovery returns that address, ``my_estimated_lan`
 One execution:
   warm-up   A, C, D1.. walk to B in that order (FIFO delivery), so that B knows everybody and everybody learnt its
             WAN address; then every NAT session except the one with B times out (mappings stay).
+            Variants: ``warm=cold`` - A skips the warm-up, the round is its very first contact (no mapping, WAN address
+            unknown); ``via=b-walked`` - B gets to know C the other way round: C walks to the public D1, B walks to
+            D1, D1 introduces C to B, B walks to C (B then verified C from an introduction *response*).
   round     A asks B for an introduction; ``random.choice`` inside ``get_peer_for_introduction`` is an enumerated
             choice point (every candidate is forced in turn, X = the introduced peer); B's answer and puncture
             request are in flight; from here on the delivery order is the explored schedule: the first DEPTH
-            deliveries range over every datagram in flight, the rest is FIFO.  As soon as A knows walkable
-            addresses it walks to all of them ("A's next walk").
+            deliveries range over every datagram in flight, the rest is FIFO (thorough: DEPTH unbounded = every
+            delivery order of the whole round).  As soon as A knows walkable addresses it walks to all of them
+            ("A's next walk").
   oracle    (1) B sent a puncture request to X;
             (2) if X's puncture left X before any contact attempt of A arrived at X (or X's NAT): at quiescence
                 X in A.get_peers() and A in X.get_peers();
@@ -39,7 +43,6 @@ LEVEL = "exploration"
 
 B_ADDR = ("2.2.2.2", 2000)
 EXTRA_KINDS = ["none", "full", "addr", "port"]      # D1..D4
-NAMES = ["C", "D1", "D2", "D3", "D4"]
 STEP_CAP = 400
 
 
@@ -196,6 +199,7 @@ def style_of(cfg: dict, name: str) -> bool:
 
 def run_one(cfg: dict, schedule: tuple, seed: int, depth: int) -> dict:
     """One execution.  Returns violations [(key, what)], avail (in-flight count per main-round step), obs, trace."""
+    cfg = {"style": "old", "k": 1, "pick": 0, "ports": "shift", "warm": "warm", "via": "x-walked", **cfg}
     w = IntroWorld(cfg, seed)
     viol: list = []
     try:
